@@ -15,7 +15,23 @@ import (
 var types, rich = corpus.Standard(), corpus.Rich(20)
 
 // lazyTypes have [lazy = true] submessages: their decoded form may keep the input bytes.
-var lazyTypes = corpus.Filter("opaque.lazy_tree.", "lazy_tree.", "hybrid.lazy_tree.", "goproto.proto.test.mixed.", "goproto.proto.lazy")
+// (restricted to corpus.Standard(): MessageSet users are outside the default build)
+var lazyTypes = standardOnly(append(corpus.Filter("opaque.lazy_tree.", "lazy_tree.", "hybrid.lazy_tree.", "lazy_normalized_wire_test.", "lazy_extension"),
+	"goproto.proto.test.OpenLazy", "goproto.proto.test.HybridLazy", "goproto.proto.test.OpaqueLazy",
+	"opaque.goproto.proto.testeditions.TestAllTypes", "opaque.goproto.proto.testeditions.TestRequiredLazy"))
+
+func standardOnly(names []string) (out []string) {
+	std := map[string]bool{}
+	for _, n := range types {
+		std[n] = true
+	}
+	for _, n := range names {
+		if std[n] {
+			out = append(out, n)
+		}
+	}
+	return out
+}
 
 var craftSizes = []int{0, 1, 2, 3, 126, 127, 128, 129, 130, 16382, 16383, 16384, 16385, 16386, 65535, 65536, 70000}
 var smallSizes = []int{0, 2, 3, 4, 9, 20}
@@ -52,6 +68,7 @@ func drawReader(t *rapid.T) readerSpec {
 	if rs.Kind == "short" || rs.Under == "short" {
 		rs.Chunks = drawChunks(t)
 		rs.EOFWithData = rapid.Bool().Draw(t, "eofdata")
+		rs.Broken = rapid.IntRange(0, 2).Draw(t, "broken") == 0
 	}
 	return rs
 }
@@ -84,7 +101,7 @@ func drawFrame(t *rapid.T, small bool) frame {
 		md := corpus.ByName(f.Type).Descriptor()
 		mo := gen.DefaultMsgOpts
 		if small {
-			mo.Depth, mo.MaxFields, mo.MaxList, mo.MaxBytes = 1, 2, 2, 6
+			mo.Depth, mo.MaxFields, mo.MaxList, mo.MaxBytes = 1, 2, 2, 12
 		}
 		f.M = gen.DrawMessage(t, md, mo)
 		o := model.AllPerturbations
@@ -230,6 +247,9 @@ func classes(c streamCase) []string {
 	if st.eof > 0 {
 		set["clean-eof"] = true
 	}
+	if st.broken > 0 {
+		set["reader-own-error"] = true
+	}
 	var out []string
 	for k := range set {
 		out = append(out, k)
@@ -239,9 +259,9 @@ func classes(c streamCase) []string {
 
 func TestStream(t *testing.T) {
 	pbt.Run(t, pbt.Prop[streamCase]{
-		Name: "stream",
-		Rule: "0-8 frames: crafted bodies of exactly 0/2/3/126..130/16382..16386/65535/65536/70000 bytes or messages of any linked type from the descriptor-directed generator; written by MarshalTo (framing checked with the reference varint parser) and independently as varint(len)||reference encoding with shortest or padded size varints and an optional tail (10-byte overflow, 11-byte varint, huge size without body); read back through bufio (drawn size) over bytes/one-byte/short-read readers, bytes.Reader, a one-byte reader, a short-read reader (with (0,nil) reads and data+EOF); MaxSize per read from default/-1/size-1/size/size+1/2^40; optional truncation (biased to frame boundaries); optional failing writer. non-trivial = >= 2 frames, one > 127 bytes, reader buffer smaller than a frame or not bufio",
-		Draw: func(t *rapid.T) streamCase { return drawCase(t, false) },
+		Name:       "stream",
+		Rule:       "0-8 frames: crafted bodies of exactly 0/2/3/126..130/16382..16386/65535/65536/70000 bytes or messages of any linked type from the descriptor-directed generator; written by MarshalTo (framing checked with the reference varint parser) and independently as varint(len)||reference encoding with shortest or padded size varints and an optional tail (10-byte overflow, 11-byte varint, huge size without body); read back through bufio (drawn size) over bytes/one-byte/short-read readers, bytes.Reader, a one-byte reader, a short-read reader (with (0,nil) reads and data+EOF); MaxSize per read from default/-1/size-1/size/size+1/2^40; optional truncation (biased to frame boundaries); optional failing writer. non-trivial = >= 2 frames, one > 127 bytes, reader buffer smaller than a frame or not bufio",
+		Draw:       func(t *rapid.T) streamCase { return drawCase(t, false) },
 		Check:      checkStreamRecord,
 		NonTrivial: nonTrivial,
 		Classes:    classes,
@@ -277,9 +297,9 @@ func checkTruncateAll(c streamCase) error {
 
 func TestTruncateAll(t *testing.T) {
 	pbt.Run(t, pbt.Prop[streamCase]{
-		Name: "truncate-all",
-		Rule: "0-3 small frames (crafted 0/2/3/4/9/20 bytes or tiny drawn messages, padded size varints, optional tail); EVERY truncation offset 0..len of both streams, each read through the drawn reader, a one-byte reader, bytes.Reader, bufio(16) and bufio(4096) over a one-byte reader; non-trivial = >= 2 frames",
-		Draw: func(t *rapid.T) streamCase { return drawCase(t, true) },
+		Name:       "truncate-all",
+		Rule:       "0-3 small frames (crafted 0/2/3/4/9/20 bytes or tiny drawn messages, padded size varints, optional tail); EVERY truncation offset 0..len of both streams, each read through the drawn reader, a one-byte reader, bytes.Reader, bufio(16) and bufio(4096) over a one-byte reader; non-trivial = >= 2 frames",
+		Draw:       func(t *rapid.T) streamCase { return drawCase(t, true) },
 		Check:      checkTruncateAll,
 		NonTrivial: func(c streamCase) bool { return len(c.Frames) >= 2 },
 		Classes: func(c streamCase) []string {
@@ -303,9 +323,10 @@ func TestMaxSizeGrid(t *testing.T) {
 		{Kind: "bytes"},
 		{Kind: "onebyte"},
 		{Kind: "short", Chunks: []int{7, 0, 1, 40}, EOFWithData: true},
+		{Kind: "short", Chunks: []int{9, 2}, Broken: true},
 	}
 	pbt.Enumerate(t, "maxsize-grid",
-		"every crafted size (0,2,3,126..130,16382..16386,65535,65536,70000) x MaxSize in {default,-1,size-1,size,size+1,2^40} x 6 reader families x {first frame, after a 3-byte frame} x {whole, cut one byte short}; non-trivial = size > 127",
+		"every crafted size (0,2,3,126..130,16382..16386,65535,65536,70000) x MaxSize in {default,-1,size-1,size,size+1,2^40} x 7 reader families x {first frame, after a 3-byte frame} x {whole, cut one byte short}; non-trivial = size > 127",
 		true,
 		func(yield func(streamCase, bool) bool) {
 			for _, size := range craftSizes {
